@@ -616,6 +616,155 @@ CHECKS['C06']['text'] = (
     'PointwiseNorm, ufunc operators inside trees, finite differences, ResizingOperator, functionals other than InnerProduct and '
     'L2NormSquared.')
 
+CHECKS['C02']['text'] = (
+    '20 theorems, no partial or conditional ones, about the model Model/Weighting.lean over R/C with positive real weights, for all '
+    'tensor, discretized and arbitrarily nested product spaces, all lengths and elements: conjugate symmetry, additivity and '
+    'homogeneity in the first argument, positivity, definiteness, weighted Cauchy-Schwarz; ||x||^2 = re<x,x> for exponent 2; '
+    'norm_nonneg; absolute homogeneity; the triangle inequality for p in {1,2,inf} and generic p >= 1 ONLY (the code accepts any '
+    'positive exponent; for p < 1 the triangle inequality genuinely fails); dist = norm(x-y) (by unfolding of parallel code '
+    'branches) and its symmetry; norm_eq_weighted_pnorm. For uniform_discr (default weighting, finite exponent, any dimension, '
+    'shape, per-axis-side nodes_on_bdry): discr_weight_eq_cell_volume (the model\'s per-entry quadrature weight equals the '
+    'GEOMETRIC cell volume stated from node positions only), discr_inner_eq_cell_quadrature, <1,1> = volume, '
+    'discr_one_norm_eq_volume_rpow; these hold for the model\'s node placement mkAxis with np.isclose(frac,1) idealised as '
+    'frac = 1. tensor/discr/pspace_inner_normal_form are unfoldings, not independent specifications. Executed without theorem: '
+    'the np.isclose tolerance variant of the boundary test (tied by correspondence incl. fractions at 1 +- 5e-6, 1 +- 2e-5), the '
+    'Float evaluation of norms, explicit-grid spaces, custom inner/norm/dist (delegation tested only).')
+CHECKS['C02']['note'] = (
+    'hand-written model (no translator) of npy_tensors/weighting/pspace/discr_space/partition/uniform_grid_fromintv/'
+    'apply_on_boundary; tie = correspondence on every run: inner products exactly (Gaussian rationals) with both the '
+    'real-tolerance and the idealised boundary test, norms/dists in doubles within 1e-9 (1e-4 single precision), uniform_discr '
+    'sent as constructor arguments, mkAxis also compared with partition.boundary_cell_fractions and cell_volume; 59 expected '
+    'model/code branches must be hit. NumPy/BLAS reductions as exact sums/maxima; positive weights assumed (not validated by the '
+    'code); size-0 arrays outside the model. Fixed findings C02-F1..F5.')
+CHECKS['C03']['text'] = (
+    '23 theorems. For every well-formed expression tree (unbounded depth) over OperatorSum, OperatorVectorSum, OperatorComp, '
+    'OperatorPointwiseProduct, Left/RightScalarMult, Left/RightVectorMult, FunctionalLeftVectorMult, and for ProductSpaceOperator '
+    '(hence Broadcast, Reduction, Diagonal), ComponentProjection(Adjoint) whose blocks are such trees, over scalars with '
+    'commutative + and * and 0+a=a (so NaN/inf junk included): op(x) returns the tree\'s value and writes no existing object; '
+    'op(x,out=y) returns y with the same value whatever y held (call_out_of_place, call_in_place, call_protocol, '
+    'out_content_irrelevant, call_casts_input, pso_*, component_projection*). These are CONDITIONAL on the leaf contract LeafOK, '
+    'which is the property itself for a leaf. LeafOK is PROVED for the model leaves Scaling, Identity, Constant, Multiply, Power, '
+    'Zero, ComplexModulusSquared(real), scalar Multiply, for every pure out-of-place body (oop_leaf_ok), for a leaf returning its '
+    'argument (ret_input_leaf_ok) and for all 42 proximal program variants (C10.prog_leaf_ok). call_rejects, uncastable_result '
+    'and the rejection half of call_functional restate model definitions tied by the dispatch stream. Leaf classes of the '
+    'library are TESTED by the oracle, not proved: of 216 Operator classes found by introspection 201 have at least one successful '
+    'call (179 of them opaque leaves), 7 abstract, 5 without constructor, 3 without _call. Open findings C03-F10, C03-F11.')
+CHECKS['C03']['note'] = (
+    'hand-written model tied by correspondence only: dispatch stream (~440 synthetic operators incl. ndarray input and uncastable '
+    'results) compared bitwise; random trees and block matrices with garbage/NaN/inf prefills at 1e-12 relative; malformed '
+    'stream (20 kinds of bad input decided by the domain itself, 10 kinds of near-miss out). Assumptions: input cast modelled as '
+    'a copy; range membership and castability are tags; inner membership checks not modelled (except a functional rejecting '
+    'out); not modelled: identity wrapping of Reduction/Broadcast, ComponentProjection with a list index, ZeroOperator with '
+    'domain != range, user temporaries; callables on discretised spaces execute user code. Unhit model branches fail the thorough '
+    'tier; replay rebuilds exactly the recorded case.')
+CHECKS['C10']['text'] = (
+    '10 theorems. alias_safe, frame and out_junk_independent hold for all 42 program variants (21 bodies x flags) of the _call '
+    'bodies of proximal_operators.py and the solver-invoked in-place operators, over any scalar type, no arithmetic law used. '
+    'alias_safe has content of its own for the 17 variants that write out more than once (box with both bounds; ccL2Sq / l2Sq with '
+    'element sigma and g; ccL1; l1; l1l2; linfty; ccLinfty; ccKL; unweighted sum constraint; power); for the 25 last-write-only '
+    'variants it is the semantics of one statement (last_write_only_is_alias_safe), i.e. the assumption that a NumPy/ODL call '
+    'reads its inputs before writing out. prog_leaf_ok, alias_safe_tree, diagonal_loop_alias, diagonal_alias_safe lift this '
+    'through the operator calculus and combine_proximals (conditional on LeafOK). Sensitivity: l1_without_guard_fails, '
+    'simplex_with_view_writes_input.')
+CHECKS['C10']['note'] = (
+    'hand-written programs; proj_simplex and the weighted simplex modelled statement for statement over uninterpreted '
+    'sort/cumsum/argsort; the component loops of Huber/ConvexConjL1L2/L1L2 merged into one statement. Correspondence on real '
+    'float64 spaces (rn, uniform_discr, constant/array weights, power spaces): non-aliased calls with NaN-prefilled out and '
+    'aliased calls, exact thresholds, a history stream (several calls on one operator instance vs fresh instances: ties '
+    'statelessness, which the straight-line programs assume), real closed-over data checked bitwise before/after; complex, '
+    'float32, 2-d, nested spaces oracle only. The class cross-check scans odl/solvers by AST (an uncovered in-place proximal class '
+    'breaks the obligation); the aliased solver call sites `f(a, out=a)` are extracted by AST on every run (6 in odl/solvers, all '
+    'applications of proximal operators). Assumes lincomb meets its C01 spec.')
+CHECKS['C07']['text'] = (
+    '57 theorems. (1) Abstract layer on any real inner product space: resolvent characterisation => unique minimiser with quadratic '
+    'gap, firm non-expansiveness, indicator idempotence; rules for translation, argument scaling (incl. the scaling==0 guard), left '
+    'scaling, quadratic perturbation, Moreau, separable sum, composition with L L^t = mu Id; L2 norm and ball. (2) About the '
+    'EXECUTED Fn.prox on lists, every length, non-negative weights: L1, L2^2, conj-L2^2, conj-L1 with scalar or point-wise steps; '
+    'box; Huber (tensor space, gamma > 0, float step; gamma = 0 scalar only); KL-conj over R; simplex and sum-constraint '
+    'projections without array weights (feasibility proved for the executed sort/cumsum/last-index rule); l1-ball projection and '
+    'L-infinity proximal for unweighted / constant weight. (3) Array-weighted simplex and sum constraint: KKT sufficiency with '
+    'feasibility as HYPOTHESIS only (threshold residual checked exactly per input by the driver). (4) tree_prox_of_leaf_hyps is '
+    'CONDITIONAL on leaf contracts (established for the L2 norm/ball on any space and for executed L1, Huber, box on R only) and is '
+    'over PTree, a separate type sharing the combinator definitions with the executed Fn. No theorem for: pwNorm / group L1-L2 / '
+    'vector Huber, simplexTauW, SeparableSum and step handling in Fn.prox, Fn.ok, Fn.err, nuclear norm, KL cross entropy. Open '
+    'findings C07-F1, C07-F1b (Linf / l1-ball under non-constant weights), C07-F7.')
+CHECKS['C07']['note'] = (
+    'hand-written model tied by correspondence only: all Fn nodes incl. comp executed by the driver and compared (exact on the '
+    'dyadic stream incl. dyadic trees, 1e-9 elsewhere); a malformed stream compares error outcomes. The functionals in the theorems '
+    'are restated in Lean; only Huber is linked to the _call model of C08/C09 (huberFn_eq_huberVal1), the others are tied by the '
+    'oracle on the real code (objective at p vs probes and Nelder-Mead <= 3-d, f(p) finite, idempotence, firm non-expansiveness, '
+    'Moreau bridge) for all 29 classes with a proximal. np.sqrt is a model parameter; eps fudges are parameters (theorems at '
+    'eps = 0); proximal_composition: theorem under L L^t = mu Id, only square scaled-orthogonal matrices generated.')
+CHECKS['C08']['technique'] = ('Lean 4 theorems on the expression model of functional.py (conjugation rules as coded) + structural and value '
+                              'correspondence of Fn.conj with convex_conj + Fenchel-Young / attainment / biconjugate / Moreau oracles')
+CHECKS['C08']['text'] = (
+    '51 theorems (30 property, 21 helper/transfer lemmas). UNCONDITIONAL on the weighted spaces WSp w (R^n with <x,y> = sum w_i '
+    'x_i y_i, all n, all w > 0, coordinate-wise leaves computed by the executed list functions): conj_sound_weighted / '
+    'conj_sound_eq_weighted - for trees over L1, Linf-ball indicator, Huber(gamma>0), L2^2, Constant, IndicatorZero, QuadraticForm '
+    '(linear; SPD operator with inverse) closed under LeftScalarMult(s>0), RightScalarMult(s!=0), RightVectorMult, ScalarSum, '
+    'Translation, QuadraticPerturb(a=0), BregmanDistance, the convex_conj built by the coded rules (incl. merging of nested '
+    'scalings/translations and the is_linear dispatch of __mul__) satisfies Fenchel-Young, with equality at the coded gradient '
+    'when the tree has one. CONDITIONAL on the three leaf pairs: conj_sound / conj_sound_eq on an arbitrary real inner-product '
+    'space. Rule-level only (no executed counterpart): conj_separable, conj_infconv_ineq, resolvent_unique; '
+    'moreau_inverse_resolvent_bookkeeping is a bookkeeping lemma, not a Moreau theorem. Moreau decomposition is a theorem only for '
+    'the coded L1 and L2^2 proximal pairs (moreau_l1_coded, moreau_l2sq_coded) and, given IsConjPair/IsProx, C07.prox_moreau. No '
+    'theorem: tightness / f**=f for gradient-less classes (oracle: attainment at grad f*(y), biconjugate), SeparableSum, '
+    'InfimalConvolution values, KL / Lp / group / nuclear norms, Moreau for Huber and derived trees.')
+CHECKS['C09']['text'] = (
+    '28 theorems (23 property, 5 helpers). grad_sound (coded gradient = gradient of coded value for every tree, under WF), '
+    'derivative_eq_inner_grad, grad_comp, grad_moreau_envelope. The coordinate-wise leaf conditions of WF are DISCHARGED on the '
+    'weighted spaces WSp w by wOps_leaf_wf for L1 (no zero entry) and Huber (gamma>0, no |x_i|=gamma); they remain hypotheses on '
+    'an abstract space and for L2-norm / KL leaves (tested by finite differences only). lipschitz_sound / '
+    'lipschitz_sound_weighted: whenever the propagated grad_lipschitz is FINITE (trees over L2^2, Constant, Huber closed under '
+    'lscal/rscal/sum/ssum/trans/qp/breg; every other class gives nan and the statement is empty there) it bounds the model '
+    'gradient; the Huber 1/gamma leaf is discharged on WSp w. Sensitivity: lip_right_scalar_old_fails. The true constant of '
+    'MoreauEnvelope (1/sigma; code passes nan) is outside.')
+for k in ('C08', 'C09'):
+    CHECKS[k]['note'] = (
+        'Trusted: the serializer `wire` (live object -> expression incl. the live operator.adjoint/inverse matrices; the driver checks '
+        'M M^-1 = I), NumPy as exact entry-wise maps, C07\'s tie of softCode/ccL1Code/l2sqCode to proximal_operators.py. A raise of '
+        'convex_conj / gradient on a modelled tree is compared with the model\'s noconj / nograd in both directions (never a silent '
+        'skip). Rounding outside the model (exact on the dyadic stream, 1e-9 otherwise). The identification of ODL\'s rn / '
+        'uniform_discr with WSp w is by correspondence (weights read from the live inner product).')
+CHECKS['C17']['text'] = (
+    '44 theorems (about 28 statements and 16 helper lemmas) about the decision model of the ufunc glue at /repo HEAD, for all '
+    'methods, out tuples, NumPy result shapes and the model\'s 17 dtypes: out arity and kind rejection (tensor, discretized); the '
+    'returned object is the given out, per position (tensor, discretized, legacy product-space) - the object, not its contents; '
+    'exact shape, dtype and weighting of a wrapped tensor result; totality of the tensor glue (full for constant and custom '
+    'weightings; for weight arrays it excludes exactly C17-F4, the cast table proved equal to NumPy\'s); discretized elements (one '
+    'output, no out): __call__/accumulate for non-array weightings, reduce for constant weightings on uniform and non-uniform '
+    'partitions (kept axes equal NumPy\'s independently stated rule for every valid axis list), outer with the exponent pinned, '
+    'the three documented rejections; open defects C17-F10, C17-F11, C17-F6a-d as theorems on the model; legacy tables total; '
+    'no-copy rule of element. Close to definitional: dispatch_ignores_operand_kinds (the result space follows the first element '
+    'operand: NumPy\'s dispatch rule). NOT proved, only tested on a fixed zoo (118k cases quick, 727k thorough): all numbers - '
+    'result values, contents written to out, operands untouched.')
+CHECKS['C17']['note'] = (
+    'NumPy\'s result (exception class or per-output none/scalar/array shape+dtype) is a parameter. Translator '
+    'tools/extract/ufunc_legacy.py (canonical-form equality): RAW_UFUNCS, both registration loops, wrapper bodies, the eight legacy '
+    'reductions, the live NumPy ufunc and can_cast tables. Correspondence: every case\'s outcome class, object identity, kind/shape/'
+    'dtype/weighting/partition; all 114 expected model branches must be hit. Not covered: Tensor.__array_ufunc__ of base_tensors.py, '
+    'a tensor and a discretized element in one call, gufuncs, where=/order=/casting=, weighted or nested product spaces, float128/'
+    'complex256. Open findings C17-F4, F6a-e, F10, F11.')
+CHECKS['C19']['text'] = (
+    '32 theorems about an executable model. SUBSTANTIVE (27): the three rotation constructions are rotations (orthonormal, det 1); '
+    'axisRot fixes its axis; rotation_matrix_from_to (generic branch) is a rotation taking u to v (det = 1 included); the '
+    'constructor-derived frames; curved and circular detector alignment; det_to_src_normalised (unit length and a positive '
+    'multiple of src - det point, CONDITIONAL on the leaf hypothesis sqrt(s)^2 = s, sqrt s >= 0); parallel ray direction orthogonal '
+    'to the rotated axes; fan/cone radii incl. the helix (zero shift functions, constructor-accepted geometries); frommatrix '
+    'rigid-motion covariance (Par3 reference point, Cone source position and reference point with shifts, Par2); '
+    'Parallel2dGeometry slicing keeps position, translation and check_bounds; parallel factory coverage in 2-d and 3-d; '
+    'helical_height_axis_window; fan_det_coord; fan coverage only partially with the missing part and the cone height proved to '
+    'fail (F19c, open); vectorised output shape = documented broadcast shape for all inputs. DEFINITIONAL (5; they unfold the model '
+    'and say nothing beyond the correspondence run): det_point_decomp, src_det_consistent, parallel_dir_const, frommatrix_initial, '
+    'getitem_angles_par3d. Open: F19c, F19m (Parallel3dEulerGeometry cannot be sliced).')
+CHECKS['C19']['note'] = (
+    'no translator; tie = correspondence at 1e-12*(1+scale) on stored attributes and float cos/sin; normalisation executed by the '
+    'driver with an approximate square root. Executed without theorem: Det*.surface/deriv for general parameters, '
+    'coneHalfHeightRaw rounding, Cone.ctorRejects. Oracle only: Fan/Cone __getitem__, det_point_position / det_to_src under '
+    'frommatrix, vectorised values, factory corner coverage, Tam-Danielsson window, which angles a slice keeps (C14), collinear / '
+    'opposite / near-opposite branches of rotation_matrix_from_to, transform_system\'s 1e-8 snap to the default. Hypotheses '
+    'c^2+s^2=1, unit axes, sqrt(s)^2 = s hold only up to rounding.')
+
 NOT_YET = {}
 
 
